@@ -39,6 +39,27 @@ def build(desc, cg=None, order=None):
     return c
 
 
+FLIP = {"and": "or", "or": "and", "nand": "nor", "nor": "nand", "xor": "xnor", "xnor": "xor", "buf": "not", "not": "buf"}
+
+
+def build_pre(desc, order=None):
+    """(c, finish) for call / edit / call histories that end in exactly ``desc``.
+
+    c is built from desc with ONE gate carrying the dual type; finish() repairs that gate in place with
+    set_type, after which c is the circuit desc describes.  A harness calls the library on c, calls finish(),
+    calls the library again on the same object and judges the second result with its unchanged oracle.
+    Returns (None, None) when desc holds no gate with a dual type."""
+    idx = [i for i, (_n, t, fi, _o) in enumerate(desc["nodes"]) if t in FLIP and fi]
+    if not idx or desc.get("raw"):
+        return None, None
+    i = idx[len(idx) // 2]
+    pre = dict(desc, nodes=[list(x) for x in desc["nodes"]])
+    name, t = pre["nodes"][i][0], pre["nodes"][i][1]
+    pre["nodes"][i][1] = FLIP[t]
+    c = build(pre, order=order)
+    return c, (lambda: c.set_type(name, t))
+
+
 def build_raw(desc, cg):
     """Build directly on a networkx graph, the way Circuit(graph=g) users and the fast parser do: nodes that are
     not outputs carry NO 'output' attribute at all."""
